@@ -19,8 +19,12 @@ def check_pairs(items, res, stratum):
         case = {'op': op, 'x': list(fxm), 'cx': cx if len(cx) <= 8 else cx[:8] + ['...'], 'shape_x': shx, 'y': list(fym), 'cy': cy if len(cy) <= 8 else cy[:8] + ['...'], 'shape_y': shy, 'route': route, 'cfg': cfg}
         full = {'op': op, 'x': list(fxm), 'cx': cx, 'shape_x': shx, 'y': list(fym), 'cy': cy, 'shape_y': shy, 'route': route, 'cfg': cfg}
         try:
-            x = A.mk(fx, np, *fxm, cx if shx is not None else cx[0], shape=shx, **cfg)
+            cfg2 = dict(cfg); build = cfg2.pop('_build', None)
+            x = A.mk(fx, np, *fxm, cx if shx is not None else cx[0], shape=shx, **cfg2)
             y = A.mk(fx, np, *fym, cy if shy is not None else cy[0], shape=shy)
+            if build == 'indexed' and shx is None and shy is None:
+                # scalar operands obtained by indexing an array (their raw value is a NumPy scalar or a Python int)
+                x = A.mk(fx, np, *fxm, [0, cx[0]], shape=(2,), **cfg2)[1]; y = A.mk(fx, np, *fym, [cy[0], 0], shape=(2,))[0]
             z = A.do_op(fx, np, op, x, y, route)
             zc = np.asarray(z.val)
             bx = np.broadcast_to(np.array(cx, dtype=object).reshape(shx if shx is not None else ()), zc.shape).reshape(-1).tolist()
